@@ -1098,6 +1098,12 @@ fn step_node<C: HCfg>(
                     return;
                 }
                 drain_events(n, rel, drain);
+                // the buffer sizes right after a bare poll count too
+                if opt.track_sizes {
+                    record_sizes(n, true);
+                } else if scn.checks & (1 << 21) != 0 {
+                    record_sizes(n, false);
+                }
             }
             a => {
                 let Sess::P(s) = &mut n.sess else { continue };
